@@ -127,6 +127,9 @@ Print Assumptions C07_stacked_shock_cell_kept.
 From mathcomp Require Import all_ssreflect all_algebra.
 From Verif.lib Require Import MatMC MatLemmas.
 From Verif.proofs Require Import KalmanProofs SmootherProofs PlansProofs.
+From Verif.lib Require Import PlansFord.
+From Verif.model Require Ford.
+From Verif.proofs Require FordProofs FordSimProofs.
 Set Implicit Arguments.
 Unset Strict Implicit.
 Import GRing.Theory.
@@ -216,6 +219,34 @@ Proof. exact: first_F. Qed.
 
 End C07.
 
+(* 3e. ... "hence by C01 the model equations": with the expansion Rx[k] the code uses (Rx[0] = P, Rx[k] = -X J^(k-1) Ru),
+       the returned transition vectors are exactly the recursion model/Ford.v::flat_run with
+       model/Ford.v::anticipated_impacts -- the model of simulate_flat about which C01_square_solves_system proves that
+       every simulated period satisfies the unsolved model equations -- driven by the RETURNED shocks *)
+Theorem C07_result_is_C01_simulation :
+  forall (F : realFieldType) (flog : F -> F) (flog2pi : F) (n nu nf nw : nat) (curr : seq nat)
+         (T : 'M[F]_n) (P : 'M[F]_(n, nu)) (K : 'cV[F]_n) (X : 'M[F]_(n, nf)) (J : 'M[F]_nf) (Ru : 'M[F]_(nf, nu))
+         (vs : seq 'cV[F]_nu) (inc : incidence) (a0 : 'cV[F]_n) (std_v : seq F)
+         (cols : seq (ccol (MC flog flog2pi) nu nw curr)),
+  let M := MC flog flog2pi in
+  let s := @mkCsys M n nu T P K in
+  let Rx := @expand_at M n nu nf P X J Ru in
+  size vs = size inc -> size cols = size inc ->
+  let l := run_l s Rx vs inc a0 std_v cols in
+  [seq @out_xi M n nw inc x | x <- l]
+  = @Ford.flat_run (FordProofs.MCOps F) n nu T K P a0 [seq @out_u F flog flog2pi n nu nw inc x | x <- l]
+      (@Ford.anticipated_impacts (FordProofs.MCOps F) n nf nu P X J Ru (@out_vs M n nu nw vs inc l)).
+Proof. move=> F flog flog2pi n nu nf nw curr T P K X J Ru vs inc a0 std_v cols; exact: run_is_C01_simulation. Qed.
+
+(* ... the anticipated impact of 3c is the one C01 characterises: P v_t - X a_t, a_t = sum_{k>=1} J^(k-1) Ru v_{t+k} *)
+Theorem C07_anticipated_impact_is_C01 :
+  forall (F : realFieldType) (flog : F -> F) (flog2pi : F) (n nu nf : nat)
+         (P : 'M[F]_(n, nu)) (X : 'M[F]_(n, nf)) (J : 'M[F]_nf) (Ru : 'M[F]_(nf, nu)) (vs : seq 'cV[F]_nu) (t : nat),
+  (t < size vs)%N ->
+  @ant_impact (MC flog flog2pi) n nu (@expand_at (MC flog flog2pi) n nu nf P X J Ru) vs t
+  = P *m nth 0 vs t - X *m @FordSimProofs.ant F nf nu J Ru (drop t.+1 vs).
+Proof. move=> F flog flog2pi n nu nf P X J Ru vs t; exact: ant_impact_is_C01. Qed.
+
 (* non-vacuity: x_t = rho x_{t-1} + e_t over any real field, one simulated period in which x is exogenized (any
    target tau) and e endogenized: every hypothesis of 3a-3d holds (sizes, invertible F, non-singular impact map) *)
 Example C07_hypotheses_satisfiable (F : realFieldType) (flog : F -> F) (flog2pi rho tau : F) :
@@ -232,3 +263,5 @@ Print Assumptions C07_still_a_simulation.
 Print Assumptions C07_generate_R_is_anticipated_impact.
 Print Assumptions C07_swap_inverts.
 Print Assumptions C07_first_column_F.
+Print Assumptions C07_result_is_C01_simulation.
+Print Assumptions C07_anticipated_impact_is_C01.
